@@ -20,3 +20,18 @@ func (s *Store) VerifClone() *Store {
 
 // VerifPublisher exposes the store's event publisher (never Run by the harness).
 func (s *Store) VerifPublisher() *stream.EventPublisher { return s.pub }
+
+// VerifAll lists every stored resource (all types and tenancies) in primary-index order.
+func (s *Store) VerifAll() []interface{} {
+	tx := s.txn(false)
+	defer tx.Abort()
+	iter, err := tx.Get(tableNameResources, indexNameID)
+	if err != nil {
+		panic(err)
+	}
+	var out []interface{}
+	for raw := iter.Next(); raw != nil; raw = iter.Next() {
+		out = append(out, raw)
+	}
+	return out
+}
